@@ -951,6 +951,7 @@ const YACC_EDGES: &[&str] = &[
     "%avoid_insert", "%avoid_insert ", "%avoid_insert 'a'", "%avoid_insert 'a' ", "%avoid_insert 'a' 'a'\n%%", "%avoid_insert 'a' // c\n'b'\n%%",
     "%avoid_insert 'a'\n%avoid_insert 'a' \"b\"\n%%\nA: ;", "%avoid_insert\n%%", "%avoid_insert /* x\n */ 'a'\n%%",
     "%implicit_tokens", "%implicit_tokens a b a", "%implicit_tokens a b a\n%%\nA: a;", "%implicit_tokens a\n%implicit_tokens b a\n%%A:;",
+    "%implicit_tokens WS\n%%\nS: 'a' WS 'b';", "%implicit_tokens WS NL\n%token NL\n%%\nS: 'a' WS NL;", "%implicit_tokens 'WS'\n%%\nS: WS;", "%implicit_tokens WS\n%epp WS 'ws'\n%%\nS: WS | S WS;",
     "%left", "%left ", "%left '+' ", "%left '+' '+'\n%right '+'\n%nonassoc \"+\" '-'\n%%", "%left\n'+'\n%%", "%leftx\n%%", "%nonassoc a /* \n */ b\n%%",
     "%token", "%token a%%", "%token a %b", "%token a\n b 'c' \"d\" %%\nA: a b c d e;", "%token \"\"\" ''' '\n'", "%token 'a\nb'", "%token \"a\rb\"%%", "%tokenx y\n%%",
     "%token a a\n%token a\n%%\nA: a 'a' \"a\";", "%token .a. _ a.b\n%%\n.a.: _ a.b;",
